@@ -151,10 +151,13 @@ func frameRule(p *Prog, r *Report, rule string, want func(fs frameSite) bool) in
 			r.Bad(rule, name+": the running counter advances by the block length", p.InstrPos(cst), "the counter is not advanced as counter + block length")
 			continue
 		}
-		spc := NewPolyCtx(fs.stampFn)
-		spc.G = true
 		cpc := NewPolyCtx(fs.fn)
 		cpc.G = true
+		spc := cpc
+		if fs.stampFn != fs.fn {
+			spc = NewPolyCtx(fs.stampFn)
+			spc.G = true
+		}
 		X := polyConst(0)
 		if x != nil {
 			X = spc.Of(x)
